@@ -188,7 +188,7 @@ def per_loader_scale_clause(model, rep, funcs):
                     binds = [(st, par) for par in ast.walk(f.node) for fld in ("body", "orelse", "finalbody") for st in (getattr(par, fld, None) or [])
                              if isinstance(st, (ast.Assign, ast.AnnAssign)) and st.value is not None and
                              any(isinstance(t, ast.Name) and t.id == v.id for t in (st.targets if isinstance(st, ast.Assign) else [st.target]))]
-                    inloop = [(st, par) for st, par in binds if par is lp and st in lp.body and mentions(st.value)]
+                    inloop = [(st, par) for st, par in binds if par is lp and st in lp.body and mentions(st.value) and not any(isinstance(x, ast.IfExp) for x in ast.walk(st.value))]
                     cond = [(st, par) for st, par in binds if par is not lp and any(x is st for x in ast.walk(lp)) and mentions(st.value)]
                     if inloop and not cond:
                         ok = True
